@@ -18,7 +18,7 @@ type c03Cell struct {
 	maxStale bool
 	failTTL  int64 // 0 default, -1 disabled
 	buildErr bool
-	flavour  int // 0 failover/sharded 1 failover/syncmap 2 failoverOf/shardedOf
+	flavour  int // 0 failover/sharded 1 failover/syncmap 2 failoverOf/shardedOf 3 failover/ShardedMapOf[any]
 	offset   int // 0..2 clock offset variant
 	syncRead bool
 }
@@ -33,7 +33,7 @@ func init() {
 					for _, maxStale := range []bool{false, true} {
 						for _, failTTL := range []int64{0, -1} {
 							for _, buildErr := range []bool{false, true} {
-								for flavour := 0; flavour < 3; flavour++ {
+								for flavour := 0; flavour < 4; flavour++ {
 									for offset := 0; offset < 3; offset++ {
 										for _, syncRead := range []bool{false, true} {
 											if failHit && failTTL == -1 {
@@ -86,6 +86,8 @@ func genC03(r *rand.Rand, run int, tier string) *Scenario {
 		fo.API, fo.Backend = "failover", "sharded"
 	case 1:
 		fo.API, fo.Backend = "failover", "syncmap"
+	case 3:
+		fo.API, fo.Backend = "failover", "shardedOfAny"
 	default:
 		fo.API, fo.Backend = "failoverOf", "shardedOf"
 	}
@@ -140,7 +142,7 @@ func (r *foRun) c03Cell() string {
 	}
 
 	return fmt.Sprintf("%s failCached=%v syncUpdate=%v failHard=%v maxStaleness=%v failedTTL=%d buildErr=%v api=%s",
-		state, in.FailAgeNs >= 0, sc.Cfg.SyncUpdate, sc.Cfg.FailHard, sc.Cfg.MaxStalenessNs > 0, sc.Cfg.FailedUpdateTTLNs, sc.Clients[0][0].BuildFail, sc.API)
+		state, in.FailAgeNs >= 0, sc.Cfg.SyncUpdate, sc.Cfg.FailHard, sc.Cfg.MaxStalenessNs > 0, sc.Cfg.FailedUpdateTTLNs, sc.Clients[0][0].BuildFail, sc.API+"/"+sc.Backend)
 }
 
 // oracleC03 compares the lone Get with the documented decision table (README "Failover cache",
